@@ -324,8 +324,12 @@ def _numpy_tables():
     return "\n".join(L) + "\n"
 
 
+TABLES_FROM = "unknown"  # where the reserved-name table of the last gen_tables() came from
+
+
 def gen_tables():
     """{relative lean path: content} — rewritten from MESA_REPO on every check"""
+    global TABLES_FROM
     probe = cell_klass_probe()
     implied = _python_implied_names()
     try:
@@ -336,6 +340,7 @@ def gen_tables():
         rest = sorted(set(probe) - set(implied))
         at = {"slots": [], "methods": rest, "properties": [], "classAttrs": [], "gridCellDict": []}
         how = f"probe (AST shape not found: {type(e).__name__})"
+    TABLES_FROM = how
     L = ["/-! GENERATED by harness/layers_common.py `gen_tables()` from mesa/discrete_space/cell.py and grid.py of the",
          "checked repository — rewritten on every check, do not edit.",
          "`cellSlots` … `gridCellDict`: names found in the source (AST of `class Cell` and of the `type(\"GridCell\", …)` call",
@@ -393,7 +398,7 @@ class Impl:
         if kind == "new":
             cls = {"moore": M["OrthogonalMooreGrid"], "vonneumann": M["OrthogonalVonNeumannGrid"],
                    "hex": M["HexGrid"]}[gridclass]
-            self.grid = cls(self.dims, torus=torus, capacity=(cap or None), random=self.model.random)
+            self.grid = cls(self.dims, torus=torus, capacity=cap, random=self.model.random)  # cap: None | 0 | 1 | ...
             self.layers = [(self.grid.empty, "bool")]  # lid 0 = the built-in layer
         else:
             cls = M["SingleGrid"] if kind == "single" else M["MultiGrid"]
@@ -980,9 +985,7 @@ class Impl:
             raise Reject("Index")
         others = sum(1 for b, p in self.where.items() if p == c and b != a)
         if new:
-            cell = self.grid[c]
-            if self.cap and others >= self.cap:
-                raise Reject("Full")
+            cell = self.grid[c]  # (a full cell refuses by itself: `Cell.add_agent`, before anything has changed)
         elif self.kind == "single" and others >= 1:
             if k == "move":
                 raise Reject("Full")
@@ -990,10 +993,15 @@ class Impl:
             self.agents[a] = self.M["CellAgent"](self.model) if new else self.M["Agent"](self.model)
         ag = self.agents[a]
         if new:
-            if k == "move" and a % 2:
-                ag.move_to(cell)
-            else:
-                ag.cell = cell
+            try:
+                if k == "move" and a % 2:
+                    ag.move_to(cell)
+                else:
+                    ag.cell = cell
+            except Exception as e:
+                if "Cell is full" in str(e):
+                    raise Reject("Full") from None
+                raise
         elif k == "place":
             try:
                 self.grid.place_agent(ag, c)
@@ -1283,7 +1291,9 @@ class Impl:
 def parse_header(line):
     w = line.split()
     assert w[0] == "scenario" and len(w) == 6, line
-    return w[1], parse_dims(w[2]), int(w[3]), w[4], w[5] == "1"
+    # CAP: `0` = no capacity (None), `zero` = a capacity of 0 (repair SC3: it is a capacity), N = capacity N
+    cap = None if w[3] == "0" else 0 if w[3] == "zero" else int(w[3])
+    return w[1], parse_dims(w[2]), cap, w[4], w[5] == "1"
 
 
 def run_impl(sc):
@@ -1330,17 +1340,18 @@ class Gen:
                 self.dims = tuple(R.choice([1, 2, 2, 3, 3, 4]) for _ in range(nd))
                 if len(all_cells(self.dims)) <= 48:
                     break
-            self.cap = R.choice([0, 0, 0, 1, 2])
+            self.cap = R.choice([None, None, None, 1, 2] * 4 + [0])
             self.gridclass = R.choice(["moore", "vonneumann", "hex"] if nd == 2 else ["moore", "vonneumann"])
             self.layers = [dict(name="empty", dtype="bool", dims=self.dims, att=True)]
         else:
             self.dims = (R.choice([1, 2, 3, 3, 4]), R.choice([1, 2, 3, 4]))
-            self.cap = 0
+            self.cap = None
             self.gridclass = "-"
             self.layers = []
         self.torus = R.random() < 0.4
         self.cells = all_cells(self.dims)
-        self.lines = [f"scenario {self.kind} {'x'.join(map(str, self.dims))} {self.cap} {self.gridclass} {int(self.torus)}"]
+        captok = "0" if self.cap is None else "zero" if self.cap == 0 else str(self.cap)
+        self.lines = [f"scenario {self.kind} {'x'.join(map(str, self.dims))} {captok} {self.gridclass} {int(self.torus)}"]
         self.handles, self.saved, self.where = [], [], {}
         self.muls = 0
         # names the cell class of the running code has (the generated table of the model): a layer may not take them
@@ -1737,7 +1748,7 @@ class Gen:
         others = sum(1 for b, p in self.where.items() if p == c and b != a)
         if self.kind == "single":
             return others == 0
-        if self.kind == "new" and self.cap:
+        if self.kind == "new" and self.cap is not None:
             return others < self.cap
         return True
 
@@ -1833,6 +1844,8 @@ def gen_scenario(R, kind=None, rejecting=False, n_ops=None):
 def tags(sc, obs):
     w0 = sc.lines[0].split()
     yield "impl:" + w0[1]
+    if w0[1] == "new":
+        yield "capacity:" + ("none" if w0[3] == "0" else w0[3])
     yield "ndim:" + str(len(w0[2].split("x")))
     seen = set()
     zero = set()  # ids of layers without entries
